@@ -1,4 +1,5 @@
 """The engine: catalog, sessions, transactions, statement cache, DDL, hooks."""
+import os
 import datetime
 import random
 
@@ -46,6 +47,9 @@ class Result:
 
 
 READ_KINDS = ('select', 'union', 'with', 'wrap')
+
+
+_TRACE_SQL = bool(os.environ.get('VERIF_DBTRACE'))  # debugging aid only
 
 
 class Engine(ExprMixin, QueryMixin, DMLMixin, RoutineMixin):
@@ -123,6 +127,8 @@ class Engine(ExprMixin, QueryMixin, DMLMixin, RoutineMixin):
             self.change_count += len(j)
             for h in self.commit_hooks:
                 h(sess, j)
+            if _TRACE_SQL:
+                sess.__dict__['trace'] = []
 
     def rollback(self, sess):
         self.undo_to(sess, 0)
@@ -174,6 +180,8 @@ class Engine(ExprMixin, QueryMixin, DMLMixin, RoutineMixin):
             raise MySQLError(1064, f'statement expects {nparams} parameters, got {len(params)}: {sql[:80]!r}')
         self.stmt_seq += 1
         self.stmt_counts[kind] = self.stmt_counts.get(kind, 0) + 1
+        if _TRACE_SQL:
+            sess.__dict__.setdefault('trace', []).append((' '.join(sql.split())[:160], params))
         if sess.read_only and kind in ('insert', 'update', 'delete'):
             raise MySQLError(1792, 'Cannot execute statement in a READ ONLY transaction.', '25006')
         rt = Runtime(self, sess, params)
